@@ -60,10 +60,12 @@ def mutated_value(draw, old):
         return old + draw(st.sampled_from([-1, 1, 1000, -1000]))
     if kind == 'near' and isinstance(old, str):
         c = draw(st.sampled_from(['upper', 'lower', 'nodash', 'trunc', 'ws',
-                                  'double']))
+                                  'double', 'nl', 'nl', 'prenl', 'tab']))
         return {'upper': old.upper(), 'lower': old.lower(),
                 'nodash': old.replace('-', ''), 'trunc': old[:-1],
-                'ws': ' ' + old + ' ', 'double': old + old}[c]
+                'ws': ' ' + old + ' ', 'double': old + old,
+                'nl': old + '\n', 'prenl': '\n' + old,
+                'tab': old + '\t'}[c]
     if kind == 'int' or kind == 'near':
         return draw(st.sampled_from(INTS))
     if kind == 'float':
@@ -102,6 +104,11 @@ def mutate_body(draw, body):
             parent = parent[p]
         if isinstance(parent, dict):
             val = parent.pop(path[-1])
+            if draw(st.integers(0, 2)) == 0:
+                # near miss of the old key (what a $-anchored pattern lets by)
+                parent[path[-1] + draw(st.sampled_from(
+                    ['\n', ' ', '\t', '\r\n']))] = val
+                return doc, 'body:rename-key-near'
             parent[draw(st.sampled_from(STRINGS))] = val
             return doc, 'body:rename-key'
     if how == 'dup-value' and isinstance(old, list) and old:
